@@ -159,13 +159,21 @@ Section SiblingsProofs.
   Notation child := (child U).
   Notation content := (sib_content_from U).
 
+  Lemma skipn_skipn' {A} (a b : nat) (l : list A) : skipn a (skipn b l) = skipn (a + b) l.
+  Proof.
+    revert l. induction b as [|b IH]; intros l.
+    - now rewrite Nat.add_0_r.
+    - destruct l as [|x l]; [now rewrite !skipn_nil|].
+      rewrite Nat.add_succ_r. cbn [skipn]. apply IH.
+  Qed.
+
   Lemma sib_content_split (cs : list child) j k :
     j <= k ->
     content cs j = flat_map c_units (firstn (k - j) (skipn j cs)) ++ content cs k.
   Proof.
     intros Hjk. unfold sib_content_from.
     rewrite <- (firstn_skipn (k - j) (skipn j cs)) at 1.
-    rewrite flat_map_app. f_equal. rewrite skipn_skipn.
+    rewrite flat_map_app. f_equal. rewrite skipn_skipn'.
     replace (k - j + j) with k by lia. reflexivity.
   Qed.
 
